@@ -15,6 +15,7 @@ const rbql = require(path.join(repo_js, 'rbql.js'));
 const rbql_csv = require(path.join(repo_js, 'rbql_csv.js'));
 
 let unhandled = [];
+let dirty = false;
 process.on('unhandledRejection', (reason) => { unhandled.push(String(reason && reason.message || reason).substring(0, 200)); });
 
 class SimCap extends Error {}
@@ -286,21 +287,38 @@ async function with_watchdog(promise, counters, max_turns) {
         total += 1;
         if (counters.eof_pushed_turn !== null)
             after_eof += 1;
-        if (after_eof > max_turns || total > 100000)
+        if (after_eof > max_turns || (total > 100000 && !counters.real_io))
             return {hang: true, after_eof: after_eof, total: total};
     }
     return result;
 }
 
 
-async function read_all(iterator, pace, counters) {
+class HangError extends Error {}
+
+
+async function guarded(promise, counters, max_turns) {
+    if (max_turns === null)
+        return await promise;   // real file I/O (bulk / fs stream): completion time is not the simulator's, no turn budget
+    let res = await with_watchdog(promise, counters, max_turns);
+    if (res.hang)
+        throw new HangError(String(res.after_eof));
+    if (res.error)
+        throw res.error;
+    return res.value;
+}
+
+
+async function read_all(iterator, pace, counters, max_turns) {
+    // Every call into the reader is guarded separately: the turns the consumer itself waits between
+    // calls (pace.gaps) are not the reader's responsibility.
     let records = [];
     let header = null;
     if (pace.header_first) {
-        header = await iterator.get_header();
+        header = await guarded(iterator.get_header(), counters, max_turns);
     }
     if (pace.mode == 'all') {
-        records = await iterator.get_all_records();
+        records = await guarded(iterator.get_all_records(), counters, max_turns);
     } else {
         let k = 0;
         while (true) {
@@ -309,7 +327,7 @@ async function read_all(iterator, pace, counters) {
                 await turns(gap);
                 counters.turn += gap;
             }
-            let record = await iterator.get_record();
+            let record = await guarded(iterator.get_record(), counters, max_turns);
             k += 1;
             if (record === null)
                 break;
@@ -317,7 +335,7 @@ async function read_all(iterator, pace, counters) {
         }
     }
     if (!pace.header_first)
-        header = await iterator.get_header();
+        header = await guarded(iterator.get_header(), counters, max_turns);
     return {records: records, header: header, warnings: iterator.get_warnings()};
 }
 
@@ -344,27 +362,30 @@ async function run_read(req) {
                 iterator = new rbql_csv.CSVRecordIterator(null, tmp_path, enc, req.delim, req.policy, req.has_header, req.comment_prefix);
             } else {
                 let src = fs.createReadStream(tmp_path, req.hwm ? {highWaterMark: req.hwm} : {});
+                // real file: the producer is not ours, but its 'end' is observable; liveness is counted from there
+                src.on('end', () => { counters.eof_pushed_turn = counters.turn; });
+                counters.real_io = true;
                 iterator = new rbql_csv.CSVRecordIterator(src, null, enc, req.delim, req.policy, req.has_header, req.comment_prefix);
             }
-            counters.eof_pushed_turn = 0; // not observable for real files: the watchdog counts from the start, with a larger budget
         }
         let pace = req.pace || {mode: 'all', gaps: [], header_first: false};
-        let promise = null;
+        let max_turns = req.mode == 'bulk' ? null : (req.max_turns || 8);
+        let value = null;
         if (pace.mode == 'query') {
             let out_rows = [];
             let warnings = [];
             let writer = new rbql.TableWriter(out_rows);
-            promise = rbql.query('select *', iterator, writer, warnings).then(() => { return {records: out_rows, header: writer.header, warnings: warnings}; });
+            let promise = rbql.query('select *', iterator, writer, warnings).then(() => { return {records: out_rows, header: writer.header, warnings: warnings}; });
+            value = await guarded(promise, counters, max_turns);
         } else {
-            promise = read_all(iterator, pace, counters);
+            value = await read_all(iterator, pace, counters, max_turns);
         }
-        let res = await with_watchdog(promise, counters, req.mode == 'stream' ? (req.max_turns || 8) : 5000);
-        if (res.hang)
-            return {outcome: ['hang', res.after_eof], counters: counters};
-        if (res.error)
-            return {outcome: describe_error(res.error), counters: counters};
-        return {outcome: ['ok'], records: res.value.records, header: res.value.header, warnings: res.value.warnings, counters: counters};
+        return {outcome: ['ok'], records: value.records, header: value.header, warnings: value.warnings, counters: counters};
     } catch (e) {
+        if (e instanceof HangError) {
+            dirty = true;   // an abandoned promise may still fire: the driver must be restarted
+            return {outcome: ['hang', parseInt(e.message)], counters: counters};
+        }
         return {outcome: describe_error(e), counters: counters};
     } finally {
         if (tmp_path) {
@@ -381,6 +402,18 @@ async function handle(req) {
         return await run_query(req);
     if (req.kind == 'read')
         return await run_read(req);
+    if (req.kind == 'batch') {
+        let responses = [];
+        for (let sub of req.requests) {
+            if (dirty) {
+                responses.push({outcome: ['skipped']});
+                continue;
+            }
+            let merged = Object.assign({}, req.common || {}, sub);
+            responses.push(await handle(merged));
+        }
+        return {responses: responses, dirty: dirty};
+    }
     return {error: 'unknown kind ' + req.kind};
 }
 
@@ -397,6 +430,8 @@ async function main() {
             resp = await handle(req);
             if (unhandled.length)
                 resp.unhandled_rejections = unhandled;
+            if (dirty)
+                resp.dirty = true;
         } catch (e) {
             resp = {driver_error: String(e && e.stack || e)};
         }
